@@ -10,8 +10,8 @@ package client
 //@ func (c *defaultClient) handleResponse
 //@   property C11
 //@   requires resp != nil
-//@   ensures [error-status-is-an-error] resp.StatusCode > 399 && resp.StatusCode < 600 ==> err != nil
-//@   ensures [success-only-for-non-error-status] err == nil ==> resp.StatusCode <= 399 || resp.StatusCode >= 600
+//@   ensures [error-status-is-an-error] old(resp.StatusCode) > 399 && old(resp.StatusCode) < 600 ==> err != nil
+//@   ensures [success-only-for-non-error-status] err == nil ==> old(resp.StatusCode) <= 399 || old(resp.StatusCode) >= 600
 //@   modifies *
 
 // ---- "a call made through the bundled client library arrives with the arguments it was given" ----
@@ -115,4 +115,18 @@ package client
 //@   property C11
 //@   at_call defaultClient.do assert [route] method == "GET" && path == "/monitor/metrics" && isnil(body)
 //@   ensures [one-request] reqN == old(reqN) + 1
+//@   modifies *
+
+// ---- "returns what the server answered", streamed responses (add): an error status is an error; anything but 200 is
+// an error; a failure the server reports AFTER the 200 status line - in the X-Stream-Error TRAILER of the response -
+// is returned as an error too; success only for a 200 whose stream ended cleanly without such a trailer ----
+//@ fnvalue defaultClient.handleStreamResponse.handler(dec)
+//@   modifies nothing
+//@ func (c *defaultClient) handleStreamResponse
+//@   property C11
+//@   requires resp != nil
+//@   ensures [error-status-is-an-error] old(resp.StatusCode) > 399 && old(resp.StatusCode) < 600 ==> err != nil
+//@   ensures [only-200-succeeds] err == nil ==> old(resp.StatusCode) == 200
+//@   ensures [trailer-error-is-returned] err == nil ==> old(resp.Trailer).Get("X-Stream-Error") == ""
+//@   loop 1 (for)
 //@   modifies *
